@@ -80,6 +80,7 @@ func (x *Exec) verifyFunction(f *ssa.Function) (rep FuncReport) {
 	}
 	// free-variable SVs must be re-read lazily: keep them as addresses
 	fr.pre = st.snapshot()
+	x.fnInfos[f.String()] = &fnInfo{fn: f, pre: fr.pre, env: fr.env, contract: c}
 	// vacuity cover: the precondition is satisfiable
 	x.checks = append(x.checks, &Check{Name: rep.Name + "/cover/requires", At: st.ev, Cover: true, Fn: f.String()})
 	x.runBlock(st, fr, f.Blocks[0])
